@@ -1,4 +1,6 @@
 mod c01;
+mod c02;
+mod c03;
 mod c04;
 mod c05;
 mod c07;
@@ -60,6 +62,8 @@ fn main() {
     let t0 = std::time::Instant::now();
     let (rep, rule, required): (Report, &str, &[&str]) = match cfg.prop.as_str() {
         "C01" => (c01::run(&cfg), c01::RULE, c01::REQUIRED),
+        "C02" => (c02::run(&cfg), c02::RULE, c02::REQUIRED),
+        "C03" => (c03::run(&cfg), c03::RULE, c03::REQUIRED),
         "C04" => (c04::run(&cfg), c04::RULE, c04::REQUIRED),
         "C05" => (c05::run(&cfg), c05::RULE, c05::REQUIRED),
         "C07" => (c07::run(&cfg), c07::RULE, c07::REQUIRED),
